@@ -190,7 +190,10 @@ func emitOpen(c *driverCtx, prop string, rf readerFile) string {
 	return key
 }
 
-var readerKinds = []string{"bytes", "bufio", "onebyte", "chunk"}
+// reader kinds: what is handed to ReadFile (any io.Reader + io.ByteReader) and, after a "+", what the callback does
+// with the banks it is given: nothing until the end (default), close every bank as soon as the record has been looked
+// at ("+close"), or close every other one at once and keep the rest ("+closesome")
+var readerKinds = []string{"bytes", "bufio", "onebyte", "chunk", "buffer", "strings", "bytes+close", "bufio+closesome", "buffer+closesome", "chunk+close", "strings+closesome"}
 
 func driveC08(c *driverCtx) error {
 	typ := reflect.TypeFor[RRec]()
@@ -226,7 +229,7 @@ func driveC08(c *driverCtx) error {
 			if step > 1 && cut%step != 0 && !important[cut] {
 				continue
 			}
-			r := readBack(typ, rf.bytes[:cut], readerKinds[(cut+fi)%4], cut%2 == 0, -1, nil)
+			r := readBack(typ, rf.bytes[:cut], readerKinds[(cut+fi)%len(readerKinds)], cut%2 == 0, -1, nil)
 			ev := readerOutcome(r, nil)
 			ev["op"], ev["cut"] = "rd_cut", cut
 			c.rec.Emit(key, ev)
@@ -268,7 +271,7 @@ func driveC07(c *driverCtx) error {
 			if len(rf.inputs) > 12 && i%9 != 0 {
 				continue
 			}
-			r := readBack(typ, rf.bytes, readerKinds[i%4], i%2 == 0, i, errSentinel)
+			r := readBack(typ, rf.bytes, readerKinds[(i)%len(readerKinds)], i%2 == 0, i, errSentinel)
 			ev := readerOutcome(r, errSentinel)
 			ev["op"], ev["failAt"] = "rd_cb", i
 			c.rec.Emit(key, ev)
@@ -331,7 +334,7 @@ func driveC07(c *driverCtx) error {
 						dec = map[string]any{"inPayload": true, "block": bi + 1, "ok": ok, "crc": crc, "same": ok && string(raw) == string(orig)}
 					}
 				}
-				r := readBack(typ, d, readerKinds[(si+fi)%4], si%2 == 0, -1, nil)
+				r := readBack(typ, d, readerKinds[(si+fi)%len(readerKinds)], si%2 == 0, -1, nil)
 				for k, v := range readerOutcome(r, nil) {
 					ev[k] = v
 				}
